@@ -339,25 +339,42 @@ def recountry(prog, mapping, drop_global=True):
 
 
 def _embed_job(args):
-    members, seed, with_ext = args          # members: list of (bp, decl)
+    members, seed, with_ext = args[:3]          # members: list of (bp, decl)
+    variant = args[3] if len(args) > 3 else None
     from harness import modelkit
     rnd = random.Random('embed|%s|%s' % ([m[0]['name'] for m in members], seed))
     T = modelcheck.HORIZON
     solo_progs = []
     joint = []
     # country codes of the embedded economies: plain ones, and codes that extend one another after an underscore
-    codes = rnd.choice([['EA', 'EB', 'EC'], ['EA', 'EA_2', 'EB'], ['Z', 'Z_9', 'K9'], ['NA', 'NA_B', 'NA_B_2'],
+    CODE_POOLS = [['EA', 'EB', 'EC'], ['EA', 'EA_2', 'EB'], ['Z', 'Z_9', 'K9'], ['NA', 'NA_B', 'NA_B_2'],
                         ['Ea', 'EA', 'eA'],       # ... codes that differ in letter case only
-                        ['CA_ON', 'US', 'MX_1'], ['N_A', 'W', 'S_B_2']])   # ... and codes with an underscore whose first
+                        ['CA_ON', 'US', 'MX_1'], ['N_A', 'W', 'S_B_2']]    # ... and codes with an underscore whose first
     #                                                                        chunk is not itself a country of the model
     # explicit currencies: distinct strings, in some jobs distinct only in letter case
-    curs = rnd.choice([None, None, ['Kr', 'KR', 'kr']])
+    CUR_POOLS = [None, ['Kr', 'KR', 'kr'], None]
+    # the pools are walked systematically with the job's index (every pool of codes meets default and explicit currencies
+    # within 14 jobs); a job replayed without an index draws them
+    if variant is None:
+        codes = rnd.choice(CODE_POOLS)
+        curs = rnd.choice(CUR_POOLS)
+    else:
+        codes = CODE_POOLS[variant % len(CODE_POOLS)]
+        curs = CUR_POOLS[(variant // len(CODE_POOLS)) % len(CUR_POOLS)]
     for i, (bp, decl) in enumerate(members):
         prog = modelcheck.program_for(bp, decl, seed, with_ic=False, region_mode='always', api_routes=False)
         ccs = [c['code'] for c in bp['countries']]
         if len(ccs) == 1:
             # a single-country economy may leave its currency to the default (a currency named after the country)
-            mapping = {ccs[0]: (codes[i], (curs[i] if curs else 'CUR' + codes[i]) if rnd.random() < 0.5 else None)}
+            draw = rnd.random()
+            if variant is not None and curs:
+                cur = curs[i]                 # explicit currencies that differ in letter case only
+            elif variant is not None and (variant // len(CODE_POOLS)) % len(CUR_POOLS) == 0:
+                cur = None                    # every member leaves its currency to the default (named after the country):
+                #                               codes that differ in case only, codes that extend one another
+            else:
+                cur = (curs[i] if curs else 'CUR' + codes[i]) if draw < 0.5 else None
+            mapping = {ccs[0]: (codes[i], cur)}
         else:
             mapping = {cc: (codes[i] + cc, curs[i] if curs else 'CUR' + codes[i]) for cc in ccs}
         p = recountry(prog, mapping)
@@ -505,12 +522,12 @@ def run(rep):
         if i < len(forced):
             names = list(forced[i])
         members = [(bps[n], rnd.choice(sorted(by[n], key=lambda b: b['decl']))['decl']) for n in names]
-        ejobs.append((members, rep.seed + i, rnd.random() < 0.5))
+        ejobs.append((members, rep.seed + i, rnd.random() < 0.5, i))
     with concurrent.futures.ProcessPoolExecutor(max_workers=16) as ex:
         r1 = list(ex.map(_rename_job, jobs, chunksize=2))
         r2 = list(ex.map(_embed_job, ejobs, chunksize=1))
     cases = [{'kind': 'rename', 'name': b['name'], 'decl': b['decl'], 'seed': b['seed']} for b in chosen] + \
-            [{'kind': 'embed', 'members': [[m[0]['name'], m[1]] for m in j[0]], 'seed': j[1], 'with_ext': j[2]} for j in ejobs]
+            [{'kind': 'embed', 'members': [[m[0]['name'], m[1]] for m in j[0]], 'seed': j[1], 'with_ext': j[2], 'variant': j[3]} for j in ejobs]
     results = r1 + r2
     for r in results:
         if isinstance(r[0], str):
@@ -555,7 +572,7 @@ def replay(path):
     if case['kind'] == 'rename':
         res = _rename_job((bps[case['name']], case['decl'], case['seed']))
     else:
-        res = _embed_job(([(bps[n], d) for n, d in case['members']], case['seed'], case['with_ext']))
+        res = _embed_job(([(bps[n], d) for n, d in case['members']], case['seed'], case['with_ext'], case.get('variant')))
     judge(rep, [case], [res])
     print(json.dumps({'case': case, 'info': res[1]}, default=str)[:2000])
     if rep.violations:
